@@ -344,7 +344,13 @@ pub(crate) fn blend<S: Sample>(
         new_grid.buffer_mut()[idx].convert_to_float_modular(bit_depth)?;
 
         // Channels of the new frame may cover different regions (e.g. upsampled extra channels), so
-        // cut the area to blend out of each of them.
+        // blend where all of them have samples and cut that area out of each of them.
+        let clipped_original_frame_region = if let Some(idx) = alpha_idx {
+            let alpha_region = new_grid.regions_and_shifts()[idx + color_channels].0;
+            clipped_original_frame_region.intersection(alpha_region)
+        } else {
+            clipped_original_frame_region
+        };
         let blend_width = clipped_original_frame_region.width as usize;
         let blend_height = clipped_original_frame_region.height as usize;
         let new_alpha_subgrid = |idx: usize| {
@@ -359,23 +365,6 @@ pub(crate) fn blend<S: Sample>(
                 .as_subgrid()
                 .subgrid(left..(left + blend_width), top..(top + blend_height))
         };
-        if let Some(idx) = alpha_idx {
-            let alpha_region = new_grid.regions_and_shifts()[idx + color_channels].0;
-            if !clipped_original_frame_region.is_empty()
-                && !alpha_region.contains(clipped_original_frame_region)
-            {
-                tracing::error!(
-                    ?alpha_region,
-                    ?clipped_original_frame_region,
-                    "Alpha channel does not cover the area to blend"
-                );
-                return Err(jxl_bitstream::Error::ValidationFailed(
-                    "alpha channel does not cover the area to blend",
-                )
-                .into());
-            }
-        }
-
         let mut blend_params = if clone_empty {
             let new_alpha = alpha_idx
                 .filter(|_| blend_width > 0 && blend_height > 0)
